@@ -86,3 +86,32 @@ if "C04" in which:
         ("c04f_as_is", "cash_history_exact_of_volume", "The same for ANY quirk valuation, in particular the code as it is (recorded finding q_liq_fail_debit): one extra integer term, the forced debit of a failed liquidation request that does not exceed cash.", True),
         ("c04f_example", "exc_headline_instance", "Non-vacuity, kernel-evaluated: deposit 1000, refused withdrawal 2000, withdrawal 250, a check booking a buy worth 300 and a sell worth 120: cash = 570.", True),
     ])
+
+IMPF16 = """From Coq Require Import ZArith NArith List Bool String Floats Reals.
+From Flocq Require Import Core.Raux IEEE754.BinarySingleNaN IEEE754.PrimFloat.
+From Alator Require Import Model.Num Model.Quirks Model.Cost Model.Exchange Model.Uist Model.Server Model.Broker
+  Model.Perf Model.Strategy Proofs.ServerProofs Proofs.BrokerLedgerProofs Proofs.FloatExact Proofs.FloatCash
+  Proofs.EndToEndExamples Proofs.FloatWorth Proofs.FloatWorthSys.
+Import ListNotations.
+Local Open Scope list_scope."""
+if "C16f" in which:
+    gen("C16float", "C16's last clause AT THE IEEE binary64 INSTANCE, for whole-unit prices: trading alone creates no value, "
+        "bit for bit. Statements only. `int_float x n`: the binary64 x is finite and equals the integer n. `zp s` is the "
+        "(integer) constant price of symbol s, at least 1. `wrel b zc zh` ties a float broker to integer cash zc and integer "
+        "holdings zh (quotes constant at zp, bid = ask); `zworth = zc + sum qty x price` is the integer worth, `zgross` its "
+        "absolute-value analogue; `finv` is the system invariant (wrel + every resting / buffered order of this broker is "
+        "integer-valued unless non-finite); `small y` bounds the magnitudes in state y (a computable sum of |cash|, "
+        "|holdings| x price and twice the volume of the orders the exchange holds) by 2^53; `run_small` asks this of every "
+        "state an update of the run starts from. Costs never reach cash — they only decide WHICH integer share count is "
+        "ordered — so whatever rounding happens in the sizing, worth is conserved exactly. Depends on the specification "
+        "axioms the standard library declares for primitive floats / 63-bit integers and the classical reals (Flocq).", IMPF16, [
+        ("c16f_floor_is_integer", "float_floor_int", "f64::floor as modelled (the 2^52 construction) returns, for every finite x, the float of the mathematical floor: share counts that come out of the sizing are integer-valued.", True),
+        ("c16f_fill_conserves_worth", "book_trade_wrel", "One fill at the constant price: cash and the position move by exactly quantity x price (the float product is exact), the entry is dropped at zero, and the integer worth is UNCHANGED.", True),
+        ("c16f_total_value", "total_value_wrel", "The broker's total value, for ANY iteration order of the holdings, is the float of the integer worth (integer sums below 2^53 are exact, hence order-independent).", True),
+        ("c16f_check", "check_wrel", "A whole check() — booking what the tick returned, then whatever the cash rebalancing does — conserves the integer worth and forwards only integer-valued orders.", True),
+        ("c16f_update", "sys_update_wrel", "One update of the full composition (tick, fetch, reconcile, rebalance toward the weights, snapshot): the invariant is kept, worth is conserved, and the snapshot's value is the float of the worth.", True),
+        ("c16f_end_to_end", "float_c16_constant_prices_end_to_end", "END TO END: init(c) with an integer-valued deposit, run() on N dates with integer constant zero-spread prices, any weights, costs, hash orders and sort oracles: exactly N updates, N snapshots, and EVERY snapshot's value EQUALS c as a float — under the run-level magnitude premise run_small.", True),
+        ("c16f_example", "float_c16_example_instance", "Non-vacuity: the kernel-evaluated 3-date run of c16_end_to_end_example meets every premise (run_small by computation) — three snapshots, each exactly 1000.", True),
+        ("c16f_premise_needed_short_sale", "float_c16_counterexample_short_sale", "The magnitude premise cannot be replaced by a bound on the deposit and the prices alone: a weight of -2^50 makes the strategy sell short 2^50-odd shares (a sale of a symbol not held passes the gate whatever its size) and a later snapshot reads 1024 for a deposit of 1000 — rounding at 2^60.", True),
+        ("c16f_premise_needed_infinite_order", "float_c16_counterexample_infinite_order", "… and a weight of -2^1023 puts an order for infinitely many shares on the exchange; the last snapshot is NaN.", True),
+    ])
